@@ -122,6 +122,11 @@ func (k *Keyring) RemoveKey(key []byte) error {
 	k.l.Lock()
 	defer k.l.Unlock()
 
+	// Nothing is installed on an empty ring, so there is nothing to remove.
+	if len(k.keys) == 0 {
+		return nil
+	}
+
 	if bytes.Equal(key, k.keys[0]) {
 		return fmt.Errorf("removing the primary key is not allowed")
 	}
